@@ -23,7 +23,7 @@ def penalties():
             "rank-1(2x2)": np.array([[1.0, -1.0], [-1.0, 1.0]], dtype=np.float32), "RW2(4x4, rank 2)": (D2.T @ D2).astype(np.float32)}
 
 
-def tau2_scenario(chk, pname, K):
+def tau2_scenario(chk, pname, K, second=False):
     import liesel.goose as gs
     import liesel.model as lsl
     import tensorflow_probability.substrates.jax.bijectors as tfb
@@ -38,19 +38,30 @@ def tau2_scenario(chk, pname, K):
     b.add_predictor("loc", tfb.Identity)
     b.add_predictor("scale", tfb.Exp)
     b.add_np_smooth(X, K, a=2.0, b=0.5, predictor="loc", name="s1")
+    if second:      # a second smooth with its own hyper-parameters, coefficients and penalty; the obligation is about ITS kernel, traced after the first smooth's
+        X = rng.normal(size=(4, 2)).astype(np.float32)
+        K = np.array([[2.0, -1.0], [-1.0, 2.0]], dtype=np.float32)
+        n = 2
+        b.add_np_smooth(X, K, a=3.0, b=0.7, predictor="loc", name="s2")
     b.add_p_smooth(np.ones((4, 1), np.float32), m=0.0, s=10.0, predictor="scale", name="p1")
     model = b.build_model()
-    group = model.groups()["s1"]
+    group = model.groups()["s2" if second else "s1"]
     kern = tau2_gibbs_kernel(group)
     iface = gs.LieselInterface(model)
     kern.set_model(iface)
+    kern_first = None
+    if second:
+        kern_first = tau2_gibbs_kernel(model.groups()["s1"])
+        kern_first.set_model(iface)
     tname = group["tau2"].name
     full0 = model.state
     names = {k: group[k].name for k in ("a", "b", "beta", "tau2")}
-    free0 = {names["a"]: jnp.asarray(2.0), names["b"]: jnp.asarray(0.5), names["beta"]: jnp.asarray(rng.normal(size=n).astype(np.float32)), names["tau2"]: jnp.asarray(1.3)}
+    free0 = {names["a"]: jnp.asarray(3.0 if second else 2.0), names["b"]: jnp.asarray(0.7 if second else 0.5), names["beta"]: jnp.asarray(rng.normal(size=n).astype(np.float32)), names["tau2"]: jnp.asarray(1.3)}
 
     def f(key, fv, t1, t2):
         st = iface.update_state(fv, full0)              # coherent state at arbitrary hyper-parameters / coefficients
+        if kern_first is not None:
+            kern_first._transition_fn(jax.random.fold_in(key, 1), st)
         pos = kern._transition_fn(key, st)
         lp1 = iface.log_prob(iface.update_state({tname: t1}, st))
         lp2 = iface.log_prob(iface.update_state({tname: t2}, st))
@@ -68,10 +79,10 @@ def tau2_scenario(chk, pname, K):
 
     def goal(V):
         gam = [d for d in V.I.draws if d["kind"] == "gamma"]
-        if len(gam) != 1:
+        if len(gam) != (2 if second else 1):
             return hyps, z3.BoolVal(False)
-        G = cells(gam[0]["out"])[0]
-        a_g = gam[0]["extra"][0]
+        G = cells(gam[-1]["out"])[0]
+        a_g = gam[-1]["extra"][0]
         draw = cells(V.out["draw"])[0]
         b_g = draw * G
         ig = lambda t: -(a_g + 1) * V.log(t) - b_g / t
@@ -187,6 +198,10 @@ def main():
         if res:
             obs += res[0]
             chk.validate(res[1])
+    res = chk.guarded("tau2:second-smooth:trace", "tracing the tau2 kernel of a second smooth", tau2_scenario, chk, "second smooth of a two-smooth model", pens["RW1(3x3, rank 2)"], True)
+    if res:
+        obs += res[0]
+        chk.validate(res[1])
     fds = [("FiniteDiscrete{0,1,2} from prior", "FiniteDiscrete", (0.0, 1.0, 2.0), False), ("Bernoulli from prior", "Bernoulli", (0, 1), False),
            ("Bernoulli outcomes=[1,0]", "Bernoulli", (1, 0), True), ("FiniteDiscrete outcomes=[2,0,1]", "FiniteDiscrete", (2.0, 0.0, 1.0), True),
            ("FiniteDiscrete{0,.5,1,1.5}, variable initialised with an integer", "FiniteDiscrete/int-initialised", (0.0, 0.5, 1.0, 1.5), False)]
@@ -201,7 +216,7 @@ def main():
     chk.functions += ["liesel.model.distreg.tau2_gibbs_kernel (transition function)", "liesel.model.goose.finite_discrete_gibbs_kernel (transition function)", "liesel.goose.gibbs.GibbsKernel",
                       "liesel.model.distreg.DistRegBuilder.add_np_smooth", "liesel.distributions.mvn_degen.MultivariateNormalDegenerate.from_penalty", "liesel.goose.interface.LieselInterface.update_state/log_prob"]
     chk.bounds += ["coefficients, hyper-parameters a, b, the current and the two probe values of tau2, prior probabilities, likelihood scale and data: symbolic reals", "penalty matrices and outcome sets concrete (enumerated)"]
-    chk.enumerated += [f"penalty {p}" for p in pn] + [f"outcomes {l}" for l, *_ in fds]
+    chk.enumerated += [f"penalty {p}" for p in pn] + ["two np smooths in one model: kernel of the second smooth (traced after the first)"] + [f"outcomes {l}" for l, *_ in fds]
     chk.assume("jax.random.gamma(key, a) is distributed Gamma(a, 1) (so b/G is inverse-gamma(a, b)); jax.random.categorical draws index j with probability proportional to exp(logits_j)",
                "the model's joint density is read through LieselInterface.update_state/log_prob (C02/C03)", "real arithmetic; log/lgamma/exp uninterpreted; tolerance 1e-5 for float32 constant folding")
     return chk.finish(technique=TECH)
